@@ -754,7 +754,15 @@ func (l *Loader) mergeResult(fetchItem *FetchItem, res *result, items []*astjson
 			// we don't consider it as an error. Note: it is not compliant with graphql spec.
 			if hasErrors {
 				if l.validateRequiredExternalFields && res.postProcessing.SelectResponseDataPath != nil {
-					taintedIndices = getTaintedIndices(res.taintInfo(fetchItem), res.errorPathRoot(), responseData, responseErrors)
+					taintData := responseData
+					if res.multi == nil && fetchItem.Fetch != nil && fetchItem.Fetch.FetchKind() == FetchKindEntity {
+						// a single entity fetch selects ["data","_entities","0"], but the error
+						// paths are relative to the _entities list: ["_entities",0,"field"]
+						if path := res.postProcessing.SelectResponseDataPath; len(path) > 1 {
+							taintData = response.Get(path[:len(path)-1]...)
+						}
+					}
+					taintedIndices = getTaintedIndices(res.taintInfo(fetchItem), res.errorPathRoot(), taintData, responseErrors)
 				}
 				if len(taintedIndices) > 0 {
 					// Override errors with generic error about missing deps.
